@@ -270,6 +270,14 @@ def run_check(prop, mod, tier, seed):
     for i, (o, v) in enumerate(results):
         if v is None:
             continue
+        if hasattr(mod, "truncate") and isinstance(model_obs[i], dict):
+            # cut runs: judge the prefix both sides cover
+            o2 = mod.truncate(cases[i], o, model_obs[i])
+            if o2 is not o:
+                try: v = mod.monitor(cases[i], o2)
+                except BaseException: v = None
+                o = o2; results[i] = (o, v)
+                if v is None: continue
         kid = mod.classify(cases[i], o, v, model_obs[i]) if hasattr(mod, "classify") else None
         if kid is not None and any(k["id"] == kid and k["status"] == "known" for k in known):
             known_hits[kid] += 1
